@@ -487,6 +487,7 @@ func popFrontHelper(h *ssa.Function) bool {
 		empty := ""
 		removals := 0
 		var front ssa.Value
+		var joined *ssa.Call
 		for i, b := range path {
 			for _, in := range b.Instrs {
 				switch x := in.(type) {
@@ -512,6 +513,10 @@ func popFrontHelper(h *ssa.Function) bool {
 						}
 					}
 				case *ssa.Call:
+					if calleeName(x) == "path/filepath.Join" {
+						joined = x // the name put behind the directory: what the caller opens (checked there)
+						continue
+					}
 					if !isBuiltin(x, "len") {
 						okAll = false
 					}
@@ -554,7 +559,30 @@ func popFrontHelper(h *ssa.Function) bool {
 			return
 		}
 		sawTake = true
-		if !fv || removals != 1 || front == nil || ret.Results[0] != front {
+		answersFront := ret.Results[0] == front
+		if joined != nil && ret.Results[0] == ssa.Value(joined) && front != nil {
+			// filepath.Join(dir, front): the front name is the last element handed to Join
+			if sl, isSl := joined.Call.Args[0].(*ssa.Slice); isSl {
+				if arr, isAlloc := sl.X.(*ssa.Alloc); isAlloc {
+					n := int64(-1)
+					if at, isArr := deref(arr.Type()).Underlying().(*types.Array); isArr {
+						n = at.Len()
+					}
+					for _, r := range *arr.Referrers() {
+						if ia, isIA := r.(*ssa.IndexAddr); isIA {
+							if k, isK := constInt(ia.Index); isK && k == n-1 {
+								for _, rr := range *ia.Referrers() {
+									if st, isSt := rr.(*ssa.Store); isSt && st.Val == front {
+										answersFront = true
+									}
+								}
+							}
+						}
+					}
+				}
+			}
+		}
+		if !fv || removals != 1 || front == nil || !answersFront {
 			okAll = false
 		}
 	})
